@@ -52,6 +52,16 @@ def wait_longer_control(e, g):
     return [{"name": "Tick", "dt": 50}, e['act']]
 
 
+def all_valid_control(e, g):
+    """C01: the same call with every signer's valid signature attached"""
+    a = e['act']
+    if not e['exp']['ok'] or 'proof' not in a or all(t == 'Valid' for t in a['proof']['sigs']):
+        return None
+    b = dict(a)
+    b['proof'] = {'set': a['proof']['set'], 'sigs': ['Valid'] * len(a['proof']['sigs'])}
+    return [b]
+
+
 PROPS = {
     "C02": {
         "title": "Each message is approved once and executed once, only by its destination",
@@ -117,6 +127,33 @@ PROPS = {
         "level_text": "TLC proves the delay limit, its completeness at the boundary, the clock rule (restart on every success incl. bypass, untouched on failure) and operator-only bypass on every reachable state; every transition (time steps of 1, D-1, D, D+1 interleaved with plain/bypass rotations that succeed or fail) is replayed against the real gateway with the ledger timestamp set by the harness.  The rotation clock is not observable; it is decided by the accept/reject outcome of every later rotation in the graph.",
         "rule": "cases = transitions of the bounded TLC instances (one per minimum delay) replayed against the contracts; distinct = distinct (abstract pre-state incl. now and last rotation time, action) pairs",
         "assumptions": ["soroban-env-host test mode implements on-chain semantics", "bounds: <= 4 epochs, delay in {0,1,10,10*2^40 s}, time horizon 2*delay+3"],
+    },
+    "C01": {
+        "title": "Approvals need threshold-weight signatures from a live signer set",
+        "policy": {"guards": ["signatures", "set_known"], "fields": [], "events": [], "rets": []},
+        "jobs": [
+            {"kind": "graph", "spec": "MC_C01", "cfg": "MC_C01_%s" % c, "module": "Gateway", "evkinds": GW_EVENTS,
+             "need": ["ApproveMessages/ok", "ApproveMessages/signatures", "ApproveMessages/set_known",
+                      "ValidateProof/ok", "ValidateProof/signatures", "ValidateProof/retention"],
+             "control": all_valid_control}
+            for c in ["max", "unit"]
+        ],
+        "level_text": "TLC proves soundness (accepted => retained set and valid weight >= threshold), completeness (honest sufficient subset => accepted) and the frame rule on every reachable state; every transition - all 8^n signature-tag vectors for every installed set, nine single tamperings of the declared set, claimed sets latest/retained/expired/unknown - is executed against the real gateway with signatures and digests built by the harness's own recipe (sha3 Keccak, ed25519-dalek), on the u128 lattice (threshold = total = u128::MAX) and in unit weights.",
+        "rule": "cases = transitions of the two bounded TLC instances replayed against the contracts; distinct = distinct (pre-state, entry point, declared set, tag vector) tuples",
+        "assumptions": ["soroban-env-host test mode implements on-chain semantics incl. Ed25519 and Keccak", "the signing digest layout keccak(domain || keccak(xdr(signers)) || keccak(xdr((command, data)))) is part of the external protocol and pinned by the harness",
+                        "bounds: sets of 1..3 signers, <= 4 epochs, retention 1; weight sums past u128::MAX inside the verification loop are unreachable for installed (well-formed) sets"],
+    },
+    "C13": {
+        "title": "Outbound calls are announced exactly, and only under the sender's authority",
+        "policy": {"guards": ["named_auth"], "fields": ["*"], "events": ["contract_called"], "rets": []},
+        "jobs": [
+            {"kind": "graph", "spec": "MC_C13", "module": "Gateway", "evkinds": GW_EVENTS,
+             "need": ["CallContract/ok", "CallContract/named_auth"],
+             "control": sibling_control(["caller", "via", "through", "auth"], "payload")},
+        ],
+        "level_text": "TLC proves 'exactly one announcement with these fields, no state change, only under the sender's authority' for every action of the instance; every one (3 kinds of sender x authorisers x 12 destination string pairs x 7 payload sizes up to 20 KiB) is executed against the real gateway. Bit-exactness of the published hash is decided by the binding's independent Keccak-256 (sha3 crate), not by TLC.",
+        "rule": "cases = call_contract transitions replayed against the contract; distinct = distinct (sender kind, authorisers, chain, address, payload) tuples",
+        "assumptions": ["soroban-env-host test mode implements on-chain semantics", "Keccak-256 of the sha3 crate is the reference hash"],
     },
 }
 
